@@ -52,7 +52,7 @@ def _gen_cfg(rnd):
         "steps": rnd.choice([15, 40, 80]),
         "names": rnd.choice(["str", "int"]),
         "stream_seed": rnd.randrange(2 ** 31),
-        "model": rnd.choice(["linear", "linear", "river-labels", "sparse-labels"]),
+        "model": rnd.choice(["linear", "linear", "river-labels", "sparse-labels", "river-bound"]),
         "tree_seed": rnd.choice([0, 0, 1, 42, rnd.randrange(1000)]),
     }
 
@@ -110,6 +110,22 @@ def interleaved(cfg, seed, cfg_b, seed_b):
 
 
 _NAMES = {}
+_STREAMS = {}     # observation lists are built once and REPLAYED (the same dict objects), like a user's in-memory data set
+
+
+class riverstub:      # noqa: N801  (lower-case on purpose: validate_model_function looks for 'river' in the owner's type name)
+    """A stateless stand-in for a river classifier: `predict_one` returns string labels.  One instance is shared by all
+    replays of the process, as a user's trained model object would be."""
+
+    def __init__(self, names, w):
+        self.names, self.w = names, w
+
+    def predict_one(self, x):
+        s_ = sum(wi * x[n] for wi, n in zip(self.w, self.names))
+        return "neg" if s_ < -1 else ("mid" if s_ < 1 else ("pos" if s_ < 3 else "top"))
+
+
+_STUBS = {}
 
 
 def scenario_gen(cfg, seed):
@@ -141,6 +157,12 @@ def scenario_gen(cfg, seed):
 
         def model(x):      # noqa: F811
             return rw(x)
+
+        def loss(y, p):    # noqa: F811
+            return sum((1.0 if (lab == "pos") == (y > 0) else 0.0) * v + 0.1 * len(p) for lab, v in p.items())
+    if cfg.get("model") == "river-bound":       # a bound method of one long-lived model object, wrapped by the library itself
+        stub = _STUBS.setdefault((d, cfg["names"]), riverstub(names, w))
+        model = stub.predict_one          # noqa: F811
 
         def loss(y, p):    # noqa: F811
             return sum((1.0 if (lab == "pos") == (y > 0) else 0.0) * v + 0.1 * len(p) for lab, v in p.items())
@@ -201,11 +223,14 @@ def scenario_gen(cfg, seed):
     else:
         e = IntervalSage(model, names, loss, n_inner_samples=cfg["n_inner"], interval_length=3, storage_length=max(size, 2),
                          storage=st, imputer=imp)
-    srnd = random.Random(cfg["stream_seed"])
     steps = cfg["steps"] if kind not in ("batch",) else min(cfg["steps"], 15)
+    skey = (cfg["stream_seed"], d, cfg["names"], steps)
+    if skey not in _STREAMS:
+        srnd = random.Random(cfg["stream_seed"])
+        _STREAMS[skey] = [({n: (float(srnd.randrange(3)) if j == 0 else srnd.gauss(0, 1)) for j, n in enumerate(names)}, srnd.gauss(0, 1))
+                          for _ in range(steps)]
     for t in range(steps):
-        x = {n: (float(srnd.randrange(3)) if j == 0 else srnd.gauss(0, 1)) for j, n in enumerate(names)}
-        y = srnd.gauss(0, 1)
+        x, y = _STREAMS[skey][t]
         if kind == "batch":
             r = e.explain_one(x, y, verbose=False, original_sage=cfg.get("original_sage", False))
         elif kind == "interval":
